@@ -429,7 +429,7 @@ class Src:
 
 
 BLANKS = [" ", " ", " ", "\t", "\xa0", "　", "\x0b", "\x0c", " "]
-ADVERSARIAL = ["\uff20tag", "\uff03 c", "\uff5c a \uff5c", "Feature\uff1a f", "\uff02\uff02\uff02", "\u201c\u201c\u201c", "caf\u00e9", "cafe\u0301", "\u212a", "\u0130", "\u00df", "\u0660\u0661", '\\"\\"\\"', "\\`\\`\\`", "#12", "{", "}", "{int}", "{0}", "{}", "%s", "%(x)s", "%", "${x}", "\\x41", "\\u00e9", "&lt;", "'", "''", "\"", "x", "a", "word", " ", "Examples", "Background", "Rule", "Scenario Outline", "Feature", "Scenario", "Given x", "When ", "* y", "| a | b |", '"""', "```", "Examples:", "Scenario: s", "Feature: f", "Rule: r",
+ADVERSARIAL = ["\ufdd0\ufdd0", "\ufdd0\ufdd1", "\x00\x00", "\ue000\ue001", "\u202bRTL\u202c", "\uff20tag", "\uff03 c", "\uff5c a \uff5c", "Feature\uff1a f", "\uff02\uff02\uff02", "\u201c\u201c\u201c", "caf\u00e9", "cafe\u0301", "\u212a", "\u0130", "\u00df", "\u0660\u0661", '\\"\\"\\"', "\\`\\`\\`", "#12", "{", "}", "{int}", "{0}", "{}", "%s", "%(x)s", "%", "${x}", "\\x41", "\\u00e9", "&lt;", "'", "''", "\"", "x", "a", "word", " ", "Examples", "Background", "Rule", "Scenario Outline", "Feature", "Scenario", "Given x", "When ", "* y", "| a | b |", '"""', "```", "Examples:", "Scenario: s", "Feature: f", "Rule: r",
                "Background:", "@tag", "# c", "#language: fr", "<a>", "<b>", "\\", "\\n", "\\|", "a.b", "a(b", "$1", "\\1", "[", "*", "+", "?",
                "\x85", " ", " ", "\x1c", "\x1d", "\x1e", "é", "\U0001F600", "日本", ":", "  ", "\t", "b",
                "\ufeff", "\u200b", "\u2060", "\u180e", "\ufeffx", "long tail of ordinary prose without any special character in it at all"]
@@ -529,7 +529,7 @@ def g_titled(s, kws, ctx, dialect, has_tags=True, p_desc=0.4):
     return t
 
 
-CELL_UNITS = ["#", "#12", "@t", "x", "a", " ", "<a>", "<b>", "\\|", "\\\\", "\\n", "\\x", "é", "\U0001F600", "\xa0", "\t", "1", "$", ".", "\\ "]
+CELL_UNITS = ["\ufdd0\ufdd0", "\ufdd0\ufdd1", "\ufdd0", "\u202a", "\u202e", "\u202c", "\u200f", "#", "#12", "@t", "x", "a", " ", "<a>", "<b>", "\\|", "\\\\", "\\n", "\\x", "é", "\U0001F600", "\xa0", "\t", "1", "$", ".", "\\ "]
 
 
 def g_cell(s):
@@ -569,8 +569,13 @@ def g_docarg(s):
     esc = "".join("\\" + c for c in delim)
     lines = []
     for _ in range(s.int(6)):
-        if s.int(4) == 0:
+        k = s.int(5)
+        if k == 0:
             body = g_text(s) + g_trail(s)
+        elif k == 1 and s.int(2):
+            # overlapping / adjacent escape sequences (an unescaper that re-scans its own output shows here)
+            a_, b_ = s.rng(0, 6), s.rng(0, 6)
+            body = s.choice(["", "x", "\\"]) + esc[:a_] + esc + esc[b_:] + s.choice(["", esc[:3], delim[:2]])
         else:
             other_esc = "".join("\\" + c for c in other)  # the escaped form of the *other* delimiter stays as written
             body = s.choice(DOC_LINES).replace("OTHERESC", other_esc).replace("OTHER", other).replace("ESC", esc).replace("DELIM", delim)
@@ -578,7 +583,7 @@ def g_docarg(s):
             body = "~" + body  # sound by construction: a content line never starts with the active delimiter
         lines.append(g_indent(s) + body)
     return {"t": "doc", "pre": g_miscs(s), "indent": g_indent(s), "delim": delim,
-            "media": s.choice(["", "", " ", "json", " text/plain ", "a b", '"x', "`y", "<a>"]),
+            "media": s.choice(["", "", " ", "json", " text/plain ", "a b", '"x', "`y", "<a>", "text/x-" + esc + "-quoted", esc, "x" + "".join("\\" + c for c in other)]),
             "lines": lines, "close_indent": g_indent(s), "close_trail": s.choice(["", "", " ", " trailing text"])}
 
 
